@@ -216,6 +216,16 @@ def _decide(ctx, tlc, traces):
     for i, clause in bad[:3]:
         ctx.violation("recorded execution rejected by TraceDistChunks at clause '%s': %s" % (clause, json.dumps(ok[i])[:400]),
                       {"kind": "raw", "trace": ok[i], "clause": clause})
+    asm = [t for t in ok if t.get("kind") == "assembly" and t["events"] and not t["events"][-1]["refused"] and t["n"] >= 3]
+    if not bad and asm:
+        from harness.tracecheck import selftest
+
+        def corrupt(t):
+            d = t["events"][-1]["dense"]
+            d[1][0], d[2][0] = d[2][0], d[1][0]
+            return "two entries of the logged dense matrix swapped"
+        selftest(ctx, "TraceDistChunks", asm[0], corrupt, decide=None, next_="TNext", init="TInit",
+                 constants={"MaxN": 99, "MaxChunks": 999, "MaxLoads": 999, "Arith": False, "Export": False})
     if ok:
         ctx.sample({"code_to_spec": ok[0] if len(json.dumps(ok[0])) < 3000 else {"kind": ok[0]["kind"], "n": ok[0]["n"]}})
 
